@@ -83,6 +83,7 @@ type FnCtx struct {
 	label    string // name used in obligation names
 	aborted  string
 	divw     map[string]string
+	entryNow string
 	curLoopFrame  []*frame
 	curLoopBlocks map[*ssa.BasicBlock]bool
 }
@@ -214,6 +215,8 @@ type Path struct {
 	depth    int
 	allocs   []string
 	dead     bool
+	bases    []string
+	acq      map[string]HeapView // heap at the acquisition of a monitored lock (for two-state guarantees)
 }
 
 func (p *Path) top() *frame { return p.frames[len(p.frames)-1] }
@@ -234,6 +237,13 @@ func (p *Path) clone() *Path {
 		q.ghost[k] = v
 	}
 	q.trace = append([]string(nil), p.trace...)
+	q.bases = append([]string(nil), p.bases...)
+	if p.acq != nil {
+		q.acq = map[string]HeapView{}
+		for k, v := range p.acq {
+			q.acq[k] = v
+		}
+	}
 	for _, f := range p.frames {
 		g := &frame{fn: f.fn, prev: f.prev, recov: f.recov, inlineOf: f.inlineOf, fc: f.fc}
 		g.regs = make(map[ssa.Value]Val, len(f.regs))
@@ -436,7 +446,35 @@ func (c *FnCtx) sel(h *HeapView, key, srt string, ptr Val) string {
 func (c *FnCtx) load(p *Path, h *HeapView, ptr Val, t types.Type) Val {
 	base := c.addrKey(ptr)
 	v := valFromLeaves(t, func(path, srt string) string { return c.sel(h, base+path, srt, ptr) })
+	if v.K == KSlice && h == &p.heap {
+		p.noteBase(v.T)
+	}
 	return v
+}
+
+func (p *Path) noteBase(b string) {
+	if len(b) > 200 {
+		return
+	}
+	for _, x := range p.bases {
+		if x == b {
+			return
+		}
+	}
+	p.bases = append(p.bases, b)
+}
+
+// rowHint: after a store into backing store `at` of key, spell out read-over-write for the other backing
+// stores this path has looked at (valid array-theory facts; they let quantifier instantiation see through stores).
+func (c *FnCtx) rowHint(p *Path, key, oldArr, at string) {
+	n := 0
+	for _, b := range p.bases {
+		if b == at || n > 6 {
+			continue
+		}
+		n++
+		p.assume(fmt.Sprintf("(=> (not (= %s %s)) (= (select %s %s) (select %s %s)))", b, at, p.heap.m[key], b, oldArr, b))
+	}
 }
 
 // loadFacts: type-range facts about a loaded value (sound: every stored value had the type).
@@ -499,6 +537,9 @@ func (c *FnCtx) store(p *Path, h *HeapView, ptr Val, v Val, t types.Type) {
 		arr := c.heapGet(h, key, l.Sort)
 		if ptr.Idx != "" {
 			h.m[key] = fmt.Sprintf("(store %s %s (store (select %s %s) %s %s))", arr, ptr.T, arr, ptr.T, ptr.Idx, lt[i][1])
+			if h == &p.heap && strings.HasPrefix(key, "[]") {
+				c.rowHint(p, key, arr, ptr.T)
+			}
 		} else {
 			h.m[key] = fmt.Sprintf("(store %s %s %s)", arr, ptr.T, lt[i][1])
 		}
@@ -1173,6 +1214,8 @@ func (c *FnCtx) equal(a, b Val) string {
 			return fmt.Sprintf("(and (= %s %s) (= %s %s) (= %s %s))", a.T, b.T, a.IVal, b.IVal, a.IStr, b.IStr)
 		}
 		return fmt.Sprintf("(= %s 0)", a.T) // nil
+	case a.K == KSlice && b.K == KSlice:
+		return fmt.Sprintf("(and (= %s %s) (= %s %s) (= %s %s))", a.T, b.T, a.Len, b.Len, a.Cap, b.Cap)
 	case a.K == KSlice || b.K == KSlice:
 		if a.K != KSlice {
 			a = b
@@ -1449,6 +1492,9 @@ func (c *FnCtx) appendVals(p *Path, s Val, elems []Val, et types.Type, hint stri
 			key := elemKey(et) + l.Path
 			arr := c.heapGet(&p.heap, key, l.Sort)
 			p.heap.m[key] = fmt.Sprintf("(store %s %s (store (select %s %s) %s %s))", arr, base, arr, cur.T, cur.Len, lt[i][1])
+			bn := c.fresh("base_"+hint, "Int")
+			p.assume("(= " + bn + " " + base + ")")
+			c.rowHint(p, key, arr, bn)
 		}
 		ncap := c.fresh("cap_"+hint, "Int")
 		newLen := "(+ " + cur.Len + " 1)"
